@@ -58,7 +58,7 @@ Section InnerNf.
     apply nf_bind; [apply from_ok_nf|]. intros u Ef. apply from_ok_le in Ef.
     apply nf_bind; [apply from_ok_nf|]. intros u' _.
     apply nf_bind; [apply Hsc; [lia|exact Ef]|]. intros o _.
-    destruct o; [|apply nf_ok|apply nf_ok]. apply IH; lia.
+    destruct o; [|apply nf_ok|apply nf_ok]. apply IH; unfold CMA_JSTEP; lia.
   Qed.
 
   Lemma obj_loop_w_nf : forall lkws rkws ljo rjo rb lko rko lvo rvo llen rlen,
@@ -79,7 +79,7 @@ Section InnerNf.
   Qed.
 
   Lemma compare_array_w_nf lh rh rb : 4 <= lb -> lb <= lenN L -> nf (compare_array_w L R sc lh lb rh rb).
-  Proof. intros H0 H. unfold compare_array_w. cbv zeta. apply arr_loop_w_nf; unfold lenN in *; lia. Qed.
+  Proof. intros H0 H. unfold compare_array_w. cbv zeta. apply arr_loop_w_nf; unfold CMA_JOFF, lenN in *; lia. Qed.
   Lemma compare_object_w_nf lh rh rb : nf (compare_object_w L R sc lh lb rh rb).
   Proof.
     unfold compare_object_w. cbv zeta. apply nf_bind; [apply rd_words_res_nf|]. intros lkws _.
@@ -96,8 +96,8 @@ Proof.
   apply nf_bind; [apply rd_nf|]. intros rh _. cbv zeta.
   repeat match goal with |- nf (if ?c then _ else _) => destruct c end;
     try apply nf_ok; try apply nf_other.
-  - apply compare_array_w_nf; [exact Hsc|lia|exact Elh].
-  - apply compare_object_w_nf. exact Hsc.
+  - apply compare_array_w_nf; unfold CMP_ARR_LSKIP; [intros; apply Hsc; lia|lia|lia].
+  - apply compare_object_w_nf. unfold CMP_OBJ_LSKIP. exact Hsc.
 Qed.
 
 (* one unit of fuel per nesting level; the payload offset grows by at least 4 per level and stays in bounds *)
@@ -132,9 +132,9 @@ Proof.
     try apply nf_ok; try apply nf_other.
   - apply nf_bind; [apply rd_nf|]. intros lw _. apply nf_bind; [apply rd_nf|]. intros rw _.
     apply nf_bind; [apply from_ok_nf|]. intros u Ef. apply from_ok_le in Ef.
-    apply nf_bind; [apply from_ok_nf|]. intros u' _. apply Hsc; [lia|exact Ef].
-  - apply compare_array_w_nf; [exact Hsc|lia|lia].
-  - apply compare_object_w_nf. exact Hsc.
+    apply nf_bind; [apply from_ok_nf|]. intros u' _. unfold CPR_SC_LSKIP in *. apply Hsc; [lia|exact Ef].
+  - unfold CPR_ARR_LSKIP. apply compare_array_w_nf; [exact Hsc|lia|lia].
+  - unfold CPR_OBJ_LSKIP. apply compare_object_w_nf. exact Hsc.
   - apply nf_bind; [apply rd_nf|]. intros lw _. apply nf_ok.
   - apply nf_bind; [apply rd_nf|]. intros rw _. apply nf_ok.
 Qed.
